@@ -630,6 +630,9 @@ def u_client_handshake(ip: Interp, th: ControlTheory):
         ip.require(s, "post:returns-normally-only-for-a-wellformed-handshake", z3.BoolVal(wellformed), P)
         rl = [e for e in s.trace if e[0] == "readline"]
         ip.require(s, "post:reads-exactly-one-line", z3.BoolVal(len(rl) == 1), P)
+        jl = [e for e in s.trace if e[0] == "json_loads"]
+        ip.require(s, "post:the-handshake-is-the-JSON-text-of-exactly-that-line(decoded,stripped)",
+                   jl[0][1].t == z3.Function("str_strip", S, S)(rl[0][1]) if len(jl) == 1 and len(rl) == 1 and isinstance(jl[0][1], StrV) and len(rl[0]) > 1 else z3.BoolVal(False), P)
         ip.require(s, "post:replies-exactly-once-with-the-pool's-name-and-a-newline",
                    sw[0][1] == sym.str_concat([StrV(str_of(POOL)), "\n"]).t if len(sw) == 1 and sw[0][1] is not None else z3.BoolVal(False), P)
         cp = [e for e in s.trace if e[0] == "ControlParser"]
